@@ -339,7 +339,7 @@ class Union:
                 )
             return cg
 
-        template = " or ".join("{}" for t in self.types)
+        template = "(" + " or ".join("{}" for t in self.types) + ")"
         return combine(template, [guarded(t) for t in self.types])
 
     def __type_order__(self, other):
@@ -399,7 +399,7 @@ class Intersection:
     def codegen(self):
         from .dependent import combine, generate_checking_code
 
-        template = " and ".join("{}" for t in self.types)
+        template = "(" + " and ".join("{}" for t in self.types) + ")"
         return combine(
             template, [generate_checking_code(t) for t in self.types]
         )
